@@ -352,8 +352,6 @@ def judge(ctx, binary, case, res, recs, hw, why):
 def run(ctx):
     binary = vlib.build(ctx, "c19")
     rbinary = vlib.build(ctx, "c19", race=True)
-    if not os.environ.get("VERIF_C19_SKIP_MODEL"):      # developer switch for mutation experiments only
-        model_stage(ctx)
     rng = random.Random(ctx.seed * 1000003 + 19)
     n = 1500 if ctx.thorough else 240
     maxlines = 8 if ctx.thorough else 4
@@ -368,8 +366,11 @@ def run(ctx):
         s = i % len(plan)
         c["_gmp"] = plan[s][1]
         shards[s].append(c)
-    out = _par([lambda s=s, pl=pl, k=k: run_proc(ctx, pl[0], s, pl[1], pl[2], "s%d-g%d%s" % (k, pl[1], "-race" if pl[2] else ""))
-                for k, (s, pl) in enumerate(zip(shards, plan))], width=min(vlib.NCPU, 8))
+    # the model stage (TLC) runs side by side with the real runs
+    jobs = [lambda: None if os.environ.get("VERIF_C19_SKIP_MODEL") else model_stage(ctx)]      # developer switch
+    jobs += [lambda s=s, pl=pl, k=k: run_proc(ctx, pl[0], s, pl[1], pl[2], "s%d-g%d%s" % (k, pl[1], "-race" if pl[2] else ""))
+             for k, (s, pl) in enumerate(zip(shards, plan))]
+    out = _par(jobs, width=min(vlib.NCPU, 8) + 1)[1:]
     results, races, crashes = {}, [], []
     for k, (r, crash, rc) in enumerate(out):
         results.update(r)
